@@ -727,6 +727,10 @@ def run_literals(chk, sw):
 #            (`a + b = 1`, only for targets where no other derivation exists) the grammar has no production.
 #  unary-base-of-**  `-a ** b` (any unary operator): the base of ** must be an UpdateExpression, and `a ** b` is not
 #            a UnaryExpression, so neither (-a) ** b nor -(a ** b) is a derivation of the unparenthesised text.
+#  bare-in   `for (a || "p" in o; ...; ...)`: the first clause of a three-clause for statement is Expression[~In], which
+#            has no production for the `in` operator outside brackets; the other reading, a for-in head, needs a
+#            LeftHandSideExpression directly before `in` and `)` after the object expression, but a `;` follows at
+#            bracket depth 0.  (Arrow functions are not used: the engine does not carry the restriction into arrow bodies.)
 #  ternary   the `:` of a conditional expression is replaced by `;` (a `?` then has no `:` before the expression
 #            ends: `;` cannot occur inside an expression outside brackets), or removed where both neighbours are
 #            identifiers / numbers of my own pool (two operands in a row on one line).
@@ -922,6 +926,19 @@ def task_reject(task):
             pp = E.Printer(mode="min", raw_exp_base=True)
             pp.program(E.Prog(pr["body"][:1] + [E.ExprStmt(ex)]))
             judge_reject(acc, "unary-base-of-** " + op, join_lines(pp.o), "generated")
+        # tree-level: a bare `in` in the first clause of a three-clause for statement
+        if k % 5 == 1:
+            IN = E.Bin("in", E.Str("p"), E.Id("o"))
+            init = rnd.choice((
+                IN, E.Bin("||", E.Id("a"), IN), E.Bin("&&", IN, E.Id("b")), E.Asg("=", E.Id("a"), IN), E.Cond(E.Id("a"), E.Id("b"), IN),
+                E.Seq([E.Id("a"), IN]), E.Bin("==", IN, E.Id("c")), E.Bin("|", E.Num(1), IN),
+                E.Asg("+=", E.Id("b"), E.Bin("||", E.Id("a"), IN)), E.Cond(IN, E.Id("a"), E.Id("b")),
+            ))
+            loop = E.For(init, rnd.choice((E.Bool(False), None, E.Bin("<", E.Id("a"), E.Num(0)))), rnd.choice((None, E.Upd("++", E.Id("a"), False))),
+                         rnd.choice((E.Empty(), E.Block([E.Break()]))))
+            pp = E.Printer(mode="min", quote='"', raw_noin=True)
+            pp.program(E.Prog(pr["body"][:1] + [loop]))
+            judge_reject(acc, "bare-in-in-for-init " + _short(init), join_lines(pp.o), "generated")
         # tree-level: non-reference targets
         sites = []
         _target_sites(pr, sites)
@@ -1101,8 +1118,11 @@ def main(chk):
         if r["fails"]:
             chk.violation("saved-replay|" + os.path.basename(path), rec.get("case"), r.get("expected"), r.get("actual"), sub="replay")
     chk.extra["switches"] = dict(sw)
-    run_prec(chk)
-    run_layout(chk, sw)
-    run_literals(chk, sw)
-    run_reject(chk)
+    import time
+
+    for name, fn in (("prec", lambda: run_prec(chk)), ("layout+round", lambda: run_layout(chk, sw)),
+                     ("literal", lambda: run_literals(chk, sw)), ("reject", lambda: run_reject(chk))):
+        t0 = time.time()  # reporting only, never part of a verdict
+        fn()
+        chk.extra["wall_s " + name] = round(time.time() - t0, 1)
     chk.exhaustive = False
